@@ -13,7 +13,7 @@ from luqum.utils import OpenRangeTransformer
 
 DOM = [0, 1, 2, 3, 4]
 ATOMS = [">a", ">=b", "<c", "<=e", "[a TO *]", "{* TO c]", "{b TO *}", "[* TO e}", "[b TO c]", "[* TO *]", "b", "(>a)^2", "f:>b", "NOT <c",
-         "[a* TO e]", "[a TO c?]"]
+         "[a* TO e]", "[a TO c?]", "(>=a)^2^3", "b^1^0.5"]
 
 
 def val(w):
@@ -34,6 +34,12 @@ def holds(n, v):
         return all(holds(c, v) for c in n.children)
     if nm in ("OrOperation", "UnknownOperation"):
         return any(holds(c, v) for c in n.children)
+    if nm == "BoolOperation":
+        must = [c for c in n.children if type(c).__name__ == "Plus"]
+        must_not = [c for c in n.children if type(c).__name__ in ("Not", "Prohibit")]
+        should = [c for c in n.children if c not in must and c not in must_not]
+        return all(holds(c, v) for c in must) and not any(holds(c.children[0], v) for c in must_not) and \
+            (any(holds(c, v) for c in should) if should and not must else True)
     if nm in ("Group", "Boost", "FieldGroup", "SearchField", "Plus"):
         return holds(n.children[0], v)
     if nm in ("Not", "Prohibit"):
@@ -47,12 +53,41 @@ def count_ranges(n):
     return sum(1 for m in gen.nodes(n) if type(m).__name__ in ("Range", "From", "To"))
 
 
+def convert(n):
+    """independent plain conversion: a comparison becomes the range with the same bound and a star on the other side; nothing else changes"""
+    from luqum import tree as T
+    import copy
+    nm = type(n).__name__
+    if nm == "From":
+        return T.Range(convert(n.a), T.Word("*"), include_low=n.include, include_high=True)
+    if nm == "To":
+        return T.Range(T.Word("*"), convert(n.a), include_low=True, include_high=n.include)
+    c = copy.copy(n)
+    c.__dict__ = dict(n.__dict__)
+    c.children = [convert(k) for k in n.children]
+    return c
+
+
 def check(q):
-    fails = []
     try:
-        t = parser.parse(q)
+        base = parser.parse(q)
     except Exception:  # noqa: BLE001
         return 0, []
+    variants = [("", base)]
+    if any(type(m).__name__ == "UnknownOperation" for m in gen.nodes(base)):
+        from luqum import tree as T
+        from luqum.utils import UnknownOperationResolver
+        variants.append((" [implicit operations resolved to BoolOperation]", UnknownOperationResolver(T.BoolOperation)(base)))
+    n, fails = 0, []
+    for label, t in variants:
+        k, f = check_tree(q + label, t)
+        n += k
+        fails += f
+    return n, fails[:2]
+
+
+def check_tree(q, t):
+    fails = []
     f0, l0 = TR.fingerprint(t), TR.layout(t)
     n = 0
     for merge in (False, True):
@@ -72,6 +107,9 @@ def check(q):
             fails.append({"input": q, "merge": merge, "observation": "ranges combined without an AND: %r" % str(y)})
         if not merge and count_ranges(y) != count_ranges(t):
             fails.append({"input": q, "merge": merge, "observation": "conversion changed the number of ranges"})
+        if (not merge or not any(type(m).__name__ == "AndOperation" for m in gen.nodes(t))) and TR.fingerprint(y) != TR.fingerprint(convert(t)):
+            fails.append({"input": q, "merge": merge, "signature": "something-else-changed",
+                          "observation": "without anything to merge the result is %r, the plain conversion is %r" % (y, convert(t))})
     if TR.fingerprint(t) != f0 or TR.layout(t) != l0:
         fails.append({"input": q, "observation": "input modified"})
     # one transformer used again on the SAME tree object after the tree was edited in place: the answer is that of a fresh transformer
